@@ -23,7 +23,8 @@ RULE_KINDS = {
     "utf7/unit-classes (bounded)": "bounded", "utf7/direct-set (bounded)": "bounded", "utf7/ampersand (bounded)": "bounded",
     "utf7/flush-before-direct (bounded)": "bounded", "utf7/pending-cleared-after-flush (bounded)": "bounded", "utf7/flush-at-end (bounded)": "bounded",
     "utf7/decoder-transitions (bounded)": "bounded",
-    "xtext/result": "bounded", "utf7/helper-payload": "bounded", "utf7/base64-alphabet": "bounded",
+    "xtext/result": "bounded", "utf7/helper-payload": "bounded", "utf7/base64-alphabet": "bounded", "utf7/output-printable-ascii": "bounded",
+    "utf7/helper-encoder-does-not-wrap": "structural",
 }
 SMTP = "mail/smtp.py"
 IMAP = "mail/imap4.py"
@@ -92,6 +93,17 @@ def _unit_argument(mod, f, seq_param=None, scanner=False):
         if not ok:
             return False, why
     return True, "branch decisions read only the current unit, constants and the coder's own state" + ("; the input is only iterated" if seq_param and not scanner else "")
+
+
+def _dotted(node):
+    parts = []
+    while isinstance(node, ast.Attribute):
+        parts.append(node.attr)
+        node = node.value
+    if isinstance(node, ast.Name):
+        parts.append(node.id)
+        return ".".join(reversed(parts))
+    return None
 
 
 def _call(fn, *args):
@@ -232,6 +244,8 @@ def _check_utf7_encoder(ctx):
     runs = [chr(cp) for cp in sorted(routed)]
     runs += ["", "ﬁ", "ﯿ", "ﬁle", "�", "éé¾", "ééÿ", "\U0001f600", "\x00\x01", "é\x01", "€é",
              "é\n", "\té", "\r\n", "ﬁﬁ¾"]
+    # payloads longer than one line of a line-wrapping base64 encoder (57 input bytes = 29 BMP / 15 astral characters), and several lines
+    runs += ["é" * k for k in (28, 29, 30, 57, 58, 100)] + ["\U0001f600" * k for k in (14, 15, 16, 40)] + ["€\x01" * 20, "\x00" * 60]
     bad_direct = bad_payload = None
     for t in runs:
         got, err = _call(helper_fn, t)
@@ -251,6 +265,31 @@ def _check_utf7_encoder(ctx):
               bad_payload and f"{helper}({bad_payload[0]!r}) gives {bad_payload[1]!r}; RFC 3501 modified base64 of the run is {ref_mb64(bad_payload[0])!r} "
               "('+' and ',' are base64 digits: they may start or end the payload and must survive the removal of the utf-7 wrapper)", detail=f"{len(runs)} runs")
 
+    # structural: the payload comes from a base64 encoder that does not insert line breaks (or every line break is removed again)
+    wrapping = {"encodebytes", "base64.encodebytes", "encodestring", "base64.encodestring", "b2a_uu", "binascii.b2a_uu"}
+    hfuncs = [hf] + [st for st in mod.tree.body if isinstance(st, ast.FunctionDef) and st is not hf and any(isinstance(c, ast.Call) and isinstance(c.func, ast.Name) and c.func.id == st.name for c in ast.walk(hf))]
+    wraps = [c for fn in hfuncs for c in ast.walk(fn) if isinstance(c, ast.Call) and ((_dotted(c.func) or "") in wrapping or
+             ((_dotted(c.func) or "") in ("codecs.encode",) and len(c.args) > 1 and isinstance(c.args[1], ast.Constant) and "base64" in str(c.args[1].value).lower()))]
+    removes_breaks = any(isinstance(c, ast.Call) and isinstance(c.func, ast.Attribute) and c.func.attr in ("replace", "translate") and c.args
+                         and isinstance(c.args[0], ast.Constant) and c.args[0].value in (b"\n", "\n") for fn in hfuncs for c in ast.walk(fn))
+    for c in wraps:
+        ctx.check(removes_breaks, "utf7/helper-encoder-does-not-wrap", f"{hq} | {_dotted(c.func)}(...)",
+                  f"{_dotted(c.func)} inserts a line feed after every 57 input bytes and the helper only strips trailing characters: a run of 29 or more BMP (15 astral) characters puts a "
+                  "raw LF inside the '&...-' sequence, which is neither printable ASCII nor decodable")
+    if not wraps:
+        ctx.ok("utf7/helper-encoder-does-not-wrap", hq, "no line-wrapping base64 encoder is used for the payload")
+    # the real encoder (real helper) only ever emits printable ASCII - short and long runs (bounded evidence: run lengths are unbounded)
+    real_enc = interp(f, FollowModule(mod, dict(COMPAT), menv), menv)
+    bad_out = None
+    for t in ["", "a&b", "é", "a" + "é" * 29 + "b", "é" * 58 + "&" + "\U0001f600" * 15, "\x00" * 60 + "~", "tab\there", "€" * 100]:
+        got, err = _call(real_enc, t)
+        if err is not None:
+            raise AnalysisError(f"{q}: evaluation raises for a {len(t)}-character text: {err}")
+        odd = sorted({b for b in bytes(got[0]) if not 0x20 <= b <= 0x7E})
+        if odd and bad_out is None:
+            bad_out = (t if len(t) < 24 else t[:12] + "..." + f"({len(t)} characters)", odd)
+    ctx.check(bad_out is None, "utf7/output-printable-ascii", q + " | encoded form is printable ASCII",
+              bad_out and f"the encoding of {bad_out[0]!r} contains the byte(s) {bad_out[1]!r}: RFC 3501 mailbox names are printable US-ASCII only", detail="8 texts incl. runs of 29-100 routed characters")
     # shift discipline on whole inputs (E = U+00E9, U = U+20AC are routed, 'a' is direct)
     E, U = "é", "€"
 
@@ -354,6 +393,8 @@ MUTANTS = [
     Mutant('F41b-revert-utf7-codec-slice', IMAP, '    s_utf16 = s.encode("utf-16-be")\n    return binascii.b2a_base64(s_utf16).rstrip(b"\\n=").replace(b"/", b",")\n', '    s_utf7 = s.encode("utf-7")\n    return s_utf7[1:-1].replace(b"/", b",")\n', expect_rule='utf7/routed-disjoint-from-codec-direct'),
     Mutant('base64-padding-stripped-at-both-ends', IMAP, 'binascii.b2a_base64(s_utf16).rstrip(b"\\n=")', 'binascii.b2a_base64(s_utf16).strip(b"\\n=+")', expect_rule='utf7/helper-payload'),
     Mutant('base64-slash-not-substituted', IMAP, 'rstrip(b"\\n=").replace(b"/", b",")\n', 'rstrip(b"\\n=")\n', expect_rule='utf7/'),
+    Mutant("payload-from-line-wrapping-encoder", IMAP, "binascii.b2a_base64(s_utf16).rstrip(", "encodebytes(s_utf16).rstrip(", expect_rule="utf7/helper-"),
+    Mutant("payload-from-codecs-base64", IMAP, "binascii.b2a_base64(s_utf16).rstrip(", "codecs.encode(s_utf16, \"base64\").rstrip(", expect_rule="utf7/helper-encoder-does-not-wrap"),
     Mutant("utf7-decoder-ampdash-miscount", IMAP, "            if len(decode) == 1:\n", "            if len(decode) <= 2:\n", expect_rule="utf7/decoder-transitions"),
     Mutant("utf7-decoder-shift-char-kept", IMAP, '                r.append(modified_unbase64(b"".join(decode[1:])))\n            decode = []\n',
            '                r.append(modified_unbase64(b"".join(decode)))\n            decode = []\n', expect_rule="utf7/decoder-transitions"),
@@ -378,5 +419,6 @@ SILENT = [
     Silent("utf7-valid-chars-comprehension", IMAP, '    valid_chars = set(map(chr, range(0x20, 0x7F))) - {"&"}\n', '    valid_chars = {chr(x) for x in range(32, 127) if x != 0x26}\n'),
     Silent('base64-helper-single-expression', IMAP, '    s_utf16 = s.encode("utf-16-be")\n    return binascii.b2a_base64(s_utf16).rstrip(b"\\n=").replace(b"/", b",")\n', '    return binascii.b2a_base64(s.encode("utf-16-be"))[:-1].rstrip(b"=").replace(b"/", b",")\n'),
     Silent('base64-helper-via-base64-module', IMAP, '    s_utf16 = s.encode("utf-16-be")\n    return binascii.b2a_base64(s_utf16).rstrip(b"\\n=").replace(b"/", b",")\n', '    import base64\n\n    return base64.b64encode(s.encode("utf-16-be")).rstrip(b"=").replace(b"/", b",")\n'),
+    Silent("payload-from-encodebytes-with-breaks-removed", IMAP, "binascii.b2a_base64(s_utf16).rstrip(b\"\\n=\")", "encodebytes(s_utf16).replace(b\"\\n\", b\"\").rstrip(b\"=\")"),
     Silent("utf7-decoder-reordered-test", IMAP, '        if c == b"&" and not decode:\n', '        if not decode and c == b"&":\n'),
 ]
